@@ -294,3 +294,49 @@ def _move_replay(direction):
 
 BUILDERS['Buffer.move_hot_to_cold'] = _move_replay('h2c')
 BUILDERS['Buffer.move_cold_to_hot'] = _move_replay('c2h')
+
+
+# ---------------------------------------------------------------------------------------------------- delay model (C15)
+def _delay_replay(m, ob):
+    from topsim.core.delay import DelayModel
+    D = DelayModel.DelayDegree
+    bad = []
+    for dist in ('normal', 'poisson', 'uniform'):
+        for deg in (D.LOW, D.MID, D.HIGH, D.NONE):
+            for prob in (0.0, 0.5, 1.0):
+                for rt in (0, 1, 2, 7, 50):
+                    for seed in (0, 3, 20):
+                        try:
+                            dm = DelayModel(prob, dist, deg, seed=seed)
+                            a = dm.generate_delay(rt)
+                            b = DelayModel(prob, dist, deg, seed=seed).generate_delay(rt)
+                            import copy as _copy
+                            for again in (dm.generate_delay(rt), dm.generate_delay(rt), _copy.copy(dm).generate_delay(rt)):
+                                if again != a:
+                                    bad.append(f"{dist}/{deg.name}/prob={prob}/runtime={rt}/seed={seed}: {a} then {again} for the same seed (repeated call on the same model)")
+                                    break
+                        except Exception as e:
+                            bad.append(f"{dist}/{deg.name}/prob={prob}/runtime={rt}/seed={seed}: {type(e).__name__}: {e}")
+                            continue
+                        if a < rt:
+                            bad.append(f"{dist}/{deg.name}/prob={prob}/runtime={rt}/seed={seed}: shortened to {a}")
+                        if a != b:
+                            bad.append(f"{dist}/{deg.name}/prob={prob}/runtime={rt}/seed={seed}: {a} then {b} for the same seed")
+                        if (deg is D.NONE or prob == 0 or rt == 0) and a != rt:
+                            bad.append(f"{dist}/{deg.name}/prob={prob}/runtime={rt}/seed={seed}: {a} != runtime")
+    import re as _re
+    mm = _re.search(r':([A-Za-z]+Error):', ob)
+    if mm:
+        sel = [b for b in bad if mm.group(1) in b]
+    elif 'deterministic' in ob:
+        sel = [b for b in bad if 'same seed' in b]
+    elif 'shortens' in ob or 'not-below' in ob:
+        sel = [b for b in bad if 'shortened' in b]
+    else:
+        sel = [b for b in bad if 'Error' not in b]
+    return dict(violated=bool(sel), scope="3 distributions x 4 degrees x 3 probabilities x runtimes {0,1,2,7,50} x 3 seeds",
+                failures=len(sel), observed=sel[:5])
+
+
+BUILDERS['DelayModel._create_random_value_from_runtime'] = _delay_replay
+BUILDERS['DelayModel.generate_delay'] = _delay_replay
